@@ -533,3 +533,31 @@ def norm_stmt(node: ast.AST) -> str:
     """Normalised statement text used to key findings (never line numbers)."""
     s = ast.unparse(node)
     return " ".join(s.split())[:160]
+
+
+def boolified(fi: FuncInfo) -> FuncInfo:
+    """A copy of a predicate function in which every `return E` with a non-literal E reads `if E: return True / else: return
+    False`, so that path enumeration decides the returned truth value through the engine's own three-valued branching."""
+    import copy
+    import dataclasses
+
+    class _T(ast.NodeTransformer):
+        def visit_FunctionDef(self, n):
+            if n is not root:
+                return n
+            self.generic_visit(n)
+            return n
+
+        def visit_Lambda(self, n):
+            return n
+
+        def visit_Return(self, n):
+            if n.value is None or isinstance(n.value, ast.Constant):
+                return n
+            t = ast.If(n.value, [ast.Return(ast.Constant(True))], [ast.Return(ast.Constant(False))])
+            return ast.fix_missing_locations(ast.copy_location(t, n))
+
+    root = copy.deepcopy(fi.node)
+    _T().visit(root)
+    ast.fix_missing_locations(root)
+    return dataclasses.replace(fi, node=root)
